@@ -63,10 +63,10 @@ let handle op args =
     if JsonMsgValid.json_schema_ok s nm then ["ok"] else ["schema-not-ok"]
   | "cls", id :: eu :: toks ->
     let (s, nm) = table id in
-    if not (JsonMsgValid.json_core s nm) then ["not-core"] else
+    if not (JsonWktValid.json_core2 s nm) then ["not-core"] else
     let (v, _) = Fam_msg.parse_value toks in
     let v = Fam_rt.norm_nan s 0 v in
-    let valid strict = JsonMsgValid.json_valid strict (eu = "1") s nm (Lazy.force Fam_rt.fuel_nat) Datatypes.O v in
+    let valid strict = JsonWktValid.json_valid2 strict (eu = "1") s nm (Lazy.force Fam_rt.fuel_nat) Datatypes.O v in
     if valid true then ["v"] else if valid false then ["f11"] else ["nv"]
   | "enc", id :: bits :: toks ->
     let (s, nm) = table id in
